@@ -450,10 +450,11 @@ func checkProgram(env *jbuild.Env, pool *simpool.Pool, p *seqgen.Program, dir st
 }
 
 func corpus(tier string, seed int64, workers int) (int, *corpusResult) {
-	n, tapes := 40, 3
+	n, tapes, budget := 40, 3, 6*time.Minute
 	if tier == "thorough" {
-		n, tapes = 1500, 8
+		n, tapes, budget = 1500, 8, 45*time.Minute
 	}
+	deadline := time.Now().Add(budget) // programs not started by then are not started (counted in the summary)
 	env, err := jbuild.Setup("c19")
 	if err != nil {
 		fmt.Fprintln(os.Stderr, err)
@@ -480,7 +481,10 @@ func corpus(tier string, seed int64, workers int) (int, *corpusResult) {
 			defer wg.Done()
 			for i := range idx {
 				mu.Lock()
-				stop := res.infra != nil || len(res.violations) > 20
+				stop := res.infra != nil || len(res.violations) > 20 || time.Now().After(deadline)
+				if !stop {
+					res.counters["programs"]++
+				}
 				mu.Unlock()
 				if stop {
 					continue
